@@ -6,7 +6,7 @@ Recognised program fragment (anything else raises Untranslatable; such programs 
 judged by the property-level oracle, they are only not part of the model/implementation tie):
   expressions  Name, Constant, Call (positional, *starred, keyword, **kw), BinOp, UnaryOp,
                Compare (one operator; more -> EBad KMultiCompare), Attribute, Subscript
-               (index not a slice), Tuple/List/Set (Load), Dict (no ** entries), BoolOp, IfExp,
+               (index not a slice), Tuple/List/Set (Load), Dict (no ** entries), NamedExpr, BoolOp, IfExp,
                Lambda without parameters defaults, comprehensions (-> EBad KComp)
   statements   Expr, Assign (targets Name / Attribute / Subscript), AugAssign, Return, Raise,
                Pass, Break, Continue, If, While, For, With (one item, `as` a plain name or absent)
@@ -25,7 +25,8 @@ TMP_RE = re.compile(r'^tmp_(\d+)$')
 TAG_CLASSES = [
     ('KCall', (ast.Call,)), ('KBinOp', (ast.BinOp,)), ('KUnaryOp', (ast.UnaryOp,)), ('KCompare', (ast.Compare,)),
     ('KAttribute', (ast.Attribute,)), ('KSubscript', (ast.Subscript,)), ('KTuple', (ast.Tuple,)),
-    ('KList', (ast.List,)), ('KSet', (ast.Set,)), ('KDict', (ast.Dict,)), ('KBoolOp', (ast.BoolOp,)),
+    ('KList', (ast.List,)), ('KSet', (ast.Set,)), ('KDict', (ast.Dict,)), ('KNamedExpr', (ast.NamedExpr,)),
+    ('KBoolOp', (ast.BoolOp,)),
     ('KIfExp', (ast.IfExp,)), ('KLambda', (ast.Lambda,)),
     ('KComp', (ast.ListComp, ast.SetComp, ast.DictComp, ast.GeneratorExp)), ('KMultiCompare', (ast.Compare,)),
     ('KName', (ast.Name,)), ('KConstant', (ast.Constant,)),
@@ -145,6 +146,10 @@ class Exporter(object):
             if any(k is None for k in n.keys):
                 raise Untranslatable('** in dict display')
             return self.op('KDict', '', [c('keys', k) for k in n.keys] + [c('values', v) for v in n.values])
+        if isinstance(n, ast.NamedExpr):
+            if TMP_RE.match(n.target.id):
+                raise Untranslatable('walrus on a gensym-shaped name')
+            return self.op('KNamedExpr', n.target.id, [c('value', n.value)])
         if isinstance(n, ast.BoolOp):
             return self.op('KBoolOp', type(n.op).__name__, [c('values', v) for v in n.values])
         if isinstance(n, ast.IfExp):
